@@ -404,7 +404,8 @@ SMALL = ['a = 1;', 'var x = function(a) { return a + 1; };', 'if (a) { b(); } el
          u'var \u00e9t\u00e9 = 1, \u03a9 = \u00e9t\u00e9;']
 # programs for which a printer may produce no fragment at all
 EMPTYISH = ['', '  \n', '/* only a comment */', '// c\n', ';', '{}']
-INVALID = ['a = ;', 'function (', '"unterminated', 'x = /[a;', 'y = 1; z = /re', 'f(/(/)']
+INVALID = ['a = ;', 'function (', '"unterminated', 'x = /[a;', 'y = 1; z = /re', 'f(/(/)', 'function(arg) {};',
+           'a = 1;\nfunction () { return 1 }', ')', u'var \u00e9 = @;']
 
 
 @st.composite
